@@ -585,3 +585,34 @@ Section Accept.
     - destruct anc as [|p anc]; [discriminate|]. apply IH; auto. eapply is_chain_tail; eauto.
   Qed.
 End Accept.
+
+(* ------------------------------------------------------------------ order independence *)
+
+Theorem register_order_independent : forall ord ord' ts,
+  orders_ok ord -> orders_ok ord' -> NoDup (tnames ts) ->
+  rmap (fun _ => tt) (register ord ts) = rmap (fun _ => tt) (register ord' ts) /\
+  forall fr fr', register ord ts = Ok fr -> register ord' ts = Ok fr' ->
+    f_tpls fr = f_tpls fr' /\
+    forall t, In t ts ->
+      ancl (f_parents fr) (t_name t) = ancl (f_parents fr') (t_name t) /\
+      forall b, lineage_of fr (t_name t) b = lineage_of fr' (t_name t) b.
+Proof.
+  intros ord ord' ts Ho Ho' Hnd. split.
+  - unfold register. destruct (compile_all ts) as [reg|e] eqn:E; cbn [rbind]; auto.
+    apply finalize_class_indep; auto. eapply reg_wf_compiled; eauto.
+  - intros fr fr' H H'.
+    destruct (reg_facts ord ts fr H) as (Hca & Hfin & Hbl).
+    destruct (reg_facts ord' ts fr' H') as (_ & Hfin' & _).
+    assert (Hwf : reg_wf (map compiled ts)) by (eapply reg_wf_compiled; eauto).
+    destruct (finalize_ok ord _ fr Ho Hwf Hfin) as (Htp & HP & _ & Hlin).
+    destruct (finalize_ok ord' _ fr' Ho' Hwf Hfin') as (Htp' & HP' & _ & Hlin').
+    split; [congruence|]. intros t Hin.
+    assert (HinC : In (compiled t) (map compiled ts)) by now apply in_map.
+    destruct HP as (_ & HPall & _). destruct HP' as (_ & HPall' & _).
+    destruct (HPall _ HinC) as (_ & Ha & _). destruct (HPall' _ HinC) as (_ & Ha' & _).
+    cbn [c_name compiled] in *.
+    assert (Heq : ancl (f_parents fr) (t_name t) = ancl (f_parents fr') (t_name t)) by (eapply an_det; eauto).
+    split; auto. intros b.
+    assert (A := Hlin _ HinC b). assert (B := Hlin' _ HinC b). cbn [c_name compiled] in A, B.
+    rewrite A, B, Heq. reflexivity.
+Qed.
